@@ -58,7 +58,7 @@ def run(ck):
                     pe = api.param_effects(p, include_grad=True)
                     ck.check(not pe, "C08.R1", inst + ":model untouched", pe[0].site if pe else asite, "apply changes model parameters")
                     # ---------------- R2: real, one value per sample
-                    ck.check(isinstance(r, VTens) and r.shape == ("B",), "C08.R2", inst + ":shape", asite,
+                    ck.check(shape_is(r, ("B",)), "C08.R2", inst + ":shape", asite,
                              "apply returns shape %s; expected one value per sample (B,)" % (getattr(r, "shape", None),))
                     t = r.term if isinstance(r, VTens) else None
                     if t is None:
@@ -179,7 +179,13 @@ def _check_flip_estimator(ck, inst, asite, p, cls, ocls, absolute):
     lp = loops[0]
     itv = lp["iter"]
     okr = isinstance(itv, VRange) and num_term(itv.start) == T.ZERO and num_term(itv.stop) == T.sym("nv") and num_term(itv.step) == T.ONE
-    ck.check(bool(okr), "C08.R3", inst + ":all sites", lp["site"], "the site loop does not run over range(samples.shape[-1])")
+    if not isinstance(itv, VRange):
+        # a loop over something else than a range of site indices (the rows of a tensor of flipped copies, a zip of such): its
+        # trip count is the length of what it runs over, when the analyser can tell
+        srcs_ = [itv] + list(getattr(itv, "sources", None) or [])
+        lens_ = {str(x.shape[0]) for x in srcs_ if isinstance(x, VTens) and x.shape}
+        okr = True if lens_ == {"nv"} else None
+    ck.check(okr, "C08.R3", inst + ":all sites", lp["site"], "the site loop does not run over range(samples.shape[-1])")
     isym = "i@" + lp["site"]
     I = T.sym(isym)
     # calls inside the generic iteration
@@ -274,6 +280,20 @@ def _check_flip_estimator(ck, inst, asite, p, cls, ocls, absolute):
 def _diag_zz(ck, inst, asite, got, want):
     gi = {a for a in got.all_atoms() if isinstance(a, T.App) and a.op == "index"}
     wi = {a for a in want.all_atoms() if isinstance(a, T.App) and a.op == "index"}
+    def _alias(a):
+        # a selection written in a way that has another, equal spelling (x[:, 0:], x[:, ::1]): comparing index steps says nothing
+        for it_ in a.args[1]:
+            if isinstance(it_, tuple) and it_ and it_[0] == "slice":
+                lo, st = it_[1], it_[3]
+                z = lambda v: isinstance(v, T.Poly) and v.is_zero() or v == 0  # noqa: E731
+                o = lambda v: (isinstance(v, T.Poly) and v == T.ONE) or v == 1  # noqa: E731
+                if (lo is not None and z(lo)) or (st is not None and o(st)):
+                    return True
+        return False
+
+    if gi != wi and any(_alias(a) for a in gi):
+        ck.undecided("C08.R3", inst + ":pairs (i, i+c)/L", asite, "the sites are selected through %s; the expected form is %s" % (sorted(repr(a.args[1]) for a in gi), sorted(repr(a.args[1]) for a in wi)))
+        return
     if gi != wi:
         ck.violation("C08.R3", inst + ":pairs (i, i+c)/L", asite, "the interaction pairs sites through %s; expected %s (same distance c on both factors)" % (
             sorted(repr(a.args[1]) for a in gi), sorted(repr(a.args[1]) for a in wi)))
